@@ -195,6 +195,10 @@ impl ObjectReceiver {
 
         if self.transfer_length.unwrap() == 0 {
             debug_assert!(self.block_writer.is_none());
+            if self.object_writer.is_none() {
+                // Not yet attached to an FDT, the object cannot be delivered
+                return Ok(());
+            }
             self.complete(now);
             return Ok(());
         }
